@@ -81,15 +81,15 @@ type SeriesSpec struct {
 }
 
 type Case struct {
-	Kind          string            `json:"kind"` // "alert" | "record"
-	Expr          string            `json:"expr"`
-	Comments      []Comment         `json:"comments,omitempty"`
-	Others        []OtherRule       `json:"others,omitempty"`
-	OthersAfter   bool              `json:"others_after,omitempty"`
-	LookbackRange string            `json:"lookback_range"` // "" = pint default (7d)
-	LookbackStep  string            `json:"lookback_step"`
-	IgnoreMetrics []string          `json:"ignore_metrics,omitempty"`
-	Tags          []string          `json:"tags,omitempty"`
+	Kind          string      `json:"kind"` // "alert" | "record"
+	Expr          string      `json:"expr"`
+	Comments      []Comment   `json:"comments,omitempty"`
+	Others        []OtherRule `json:"others,omitempty"`
+	OthersAfter   bool        `json:"others_after,omitempty"`
+	LookbackRange string      `json:"lookback_range"` // "" = pint default (7d)
+	LookbackStep  string      `json:"lookback_step"`
+	IgnoreMetrics []string    `json:"ignore_metrics,omitempty"`
+	Tags          []string    `json:"tags,omitempty"`
 	// Series: the database, as presence patterns relative to now and to the lookback window (see spansFor);
 	// materialised when the case runs, so a stored case replays at any later time.
 	Series []SeriesSpec `json:"series"`
@@ -97,8 +97,8 @@ type Case struct {
 	// Align (hand-made replays only): lengthen the lookback by up to 2h so that the window starts 110 minutes
 	// after a 2h boundary of the wall clock - pint aligns its range-query slices to such boundaries, and how far
 	// before the window it looks depends on the time of day the case runs.
-	Align bool `json:"align,omitempty"`
-	Class         string            `json:"class,omitempty"`
+	Align bool   `json:"align,omitempty"`
+	Class string `json:"class,omitempty"`
 }
 
 func (c Case) lookback() time.Duration {
@@ -414,8 +414,8 @@ type outcome struct {
 	NoSamples  map[string]bool
 	// NoSamplesExt: no sample in the window extended by the 2h pint's range slicing may reach back further
 	NoSamplesExt map[string]bool
-	Log        []promsrv.Request
-	Skip       string
+	Log          []promsrv.Request
+	Skip         string
 }
 
 var errSkip = errors.New("precondition not met")
